@@ -24,7 +24,8 @@ var (
 )
 
 func classify(f *Finding, input string, cfg Config) {
-	in := f.InPart
+	rawIn := f.InPart
+	in := stripComments(f.InPart)
 	low := strings.ToLower(in)
 	sig := f.Sig
 	has := func(s string) bool { return strings.Contains(sig, s) }
@@ -35,23 +36,31 @@ func classify(f *Finding, input string, cfg Config) {
 		f.ID = "K22"
 	case strings.HasPrefix(sig, "selector:") && reSFlag.MatchString(in):
 		f.ID = "N05"
-	case has("fusion:") && (strings.Contains(in, "/**/") || strings.Contains(input, "/*")) && (f.Kind == "selector" || strings.HasPrefix(sig, "opaque-block:") || strings.HasPrefix(sig, "junk:")):
+	case has("fusion:") && (strings.Contains(rawIn, "/**/") || strings.Contains(input, "/*")) && (f.Kind == "selector" || strings.HasPrefix(sig, "opaque-block:") || strings.HasPrefix(sig, "junk:") || strings.HasPrefix(sig, "custom-property:")):
 		f.ID = "N06"
 	case strings.Contains(low, "lightslateblue"):
 		f.ID = "K21"
-	case cfg.Keep && reExpNumber.MatchString(in) && (has("number:") || has("fusion:") || has("tokens-") || has("output-not-in-grammar") || has("zero-unit") || has("unit-changed")):
+	case f.Family == "unicode-range" && has("output-not-in-grammar"):
+		f.ID = "N15"
+	case cfg.Keep && hasExponentNumber(Tokenize(preprocess(in))) && (has("number:") || has("fusion:") || has("tokens-") || has("output-not-in-grammar") || has("zero-unit") || has("unit-changed")):
 		f.ID = "N01"
 	case cfg.Keep && cfg.Prec > 0 && reAll9.MatchString(in) && (has("number:") || has("tokens-") || has("fusion:") || has("output-not-in-grammar")):
 		f.ID = "K29"
 	case (f.Family == "bgpos" || f.Family == "background") && reRightPct.MatchString(in) && reBottomPct.MatchString(in):
 		f.ID = "K20"
-	case (f.Family == "bgpos" || f.Family == "background") && (reFarFracPct.MatchString(in) || reFarExpPct.MatchString(in)):
+	case (f.Family == "bgpos" || f.Family == "background") && farPctNotPlainInt(in):
 		f.ID = "N03"
+	case f.Family == "bgpos" && strings.Contains(in, ","):
+		f.ID = "N16"
+	case f.Family == "background" && strings.Contains(in, "/") && (has("width:") || has("height:") || has("size:") || has("output-not-in-grammar")):
+		f.ID = "N14"
+	case has("zero-unit-dropped:length"):
+		f.ID = "N13"
 	case f.Family == "border-color" && strings.Contains(low, "currentcolor") && has("output-not-in-grammar"):
 		f.ID = "N02"
 	case (f.Family == "font-family" || f.Family == "font") && reQuotedKw.MatchString(in) && has("family:"):
 		f.ID = "K23"
-	case has("color:rgb-differs") && reHslNumbers.MatchString(in):
+	case reHslNumbers.MatchString(in) && (has("color:") || has("tokens-") || has("output-not-in-grammar")):
 		f.ID = "N04"
 	case has("color:rgb-differs") && alphaZeroHex(in):
 		f.ID = "K45"
@@ -59,7 +68,9 @@ func classify(f *Finding, input string, cfg Config) {
 		f.ID = "N08"
 	case (f.Family == "flex" || f.Family == "flex-basis") && (has("basis:")):
 		f.ID = "N09"
-	case has("datauri:") || has("url:") || has("string:") || strings.HasPrefix(sig, "generic:tokens") || has("output-not-in-grammar"):
+	case reSlashStar.MatchString(in) && (has("tokens-") || has("fusion:") || has("important:")):
+		f.ID = "N10"
+	case has("datauri:") || has("url:") || has("string:") || has("tokens-") || has("output-not-in-grammar"):
 		if hasDataScheme(urlOf(in)) || strings.Contains(low, "data:") {
 			u := dataPart(in)
 			switch {
@@ -67,7 +78,7 @@ func classify(f *Finding, input string, cfg Config) {
 				f.ID = "N12"
 			case strings.Contains(u, "\\"):
 				f.ID = "N11"
-			case !strings.Contains(low, ";base64") && strings.Contains(u, "+") && has("payload-changed"):
+			case plusInPlainDataURI(in) && has("payload-changed"):
 				f.ID = "K40"
 			case payloadHasQuote(in):
 				f.ID = "N07"
@@ -124,6 +135,38 @@ func alphaZeroHex(decl string) bool {
 			if len(h) == 8 && h[6] == '0' && h[7] == '0' || len(h) == 4 && h[3] == '0' {
 				return true
 			}
+		}
+	}
+	return false
+}
+
+// plusInPlainDataURI: a literal '+' in the payload of a data URI that is not base64 encoded.
+func plusInPlainDataURI(decl string) bool {
+	for _, t := range Tokenize(preprocess(decl)) {
+		if t.K != KString && t.K != KURL {
+			continue
+		}
+		if !hasDataScheme(t.Val) {
+			continue
+		}
+		if c := strings.IndexByte(t.Val, ','); c >= 0 {
+			if !strings.Contains(strings.ToLower(t.Val[:c]), ";base64") && strings.Contains(t.Val[c:], "+") {
+				return true
+			}
+		}
+	}
+	return false
+}
+
+var reFarPct = regexp.MustCompile(`(?i)(right|bottom)\s+([-+]?[0-9.]+(e[-+]?[0-9]+)?)%`)
+var rePlainInt = regexp.MustCompile(`^[-+]?0*[0-9]{1,3}(\.0*)?$`)
+
+// farPctNotPlainInt: a percentage offset from right/bottom whose minified lexeme is not a plain
+// integer (fraction, or >= 1000 which is printed as 1e3): the minifier reads it with ParseInt.
+func farPctNotPlainInt(decl string) bool {
+	for _, m := range reFarPct.FindAllStringSubmatch(decl, -1) {
+		if !rePlainInt.MatchString(m[2]) {
+			return true
 		}
 	}
 	return false
